@@ -1,8 +1,108 @@
-(* C08 - device scripts execute exactly as written.  (statements only; under construction) *)
-From Coq Require Import List NArith ZArith Bool.
-From PM Require Import Base.Bytes Base.Outcome Gen.GenConsts Model.ScriptAst Model.Enqueue Model.Script Model.Device.
-Import ListNotations.
+(* C08 - device scripts execute exactly as written.
+   Statements only; proofs in Proofs/ScriptProofs.v.  The model (Model/Script.v, Model/Device.v) is tied to
+   device.c by the exact differential R-DEV (props/C08.py): every callback, written byte, time-out, queue,
+   exec stack, buffer and Arg is compared after every pass.
 
+   (* OPEN *) C08_refines: the whole-run statement "the observation trace of an action is a derivation of the
+   inductive trace semantics of its script" (DESIGN §5 C08, A.5) is NOT proved; what is proved are the
+   statement-level laws below, from which program order follows statement by statement because the machine
+   only moves from a statement to its successor through [advance] after [fin = true] (by construction of
+   Device.process_action). *)
+From Coq Require Import List NArith ZArith Bool.
+From PM Require Import Base.Bytes Base.Outcome Gen.GenConsts Model.ScriptAst Model.Enqueue Model.Script Proofs.ScriptProofs.
+Import ListNotations.
+Local Open Scope Z_scope.
+
+(* `%s` stands for the configured name of the single plug, or for the compressed list of exactly the context's
+   plug names (ranged scripts), or for nothing when the context has no plug *)
+Theorem C08_send_argument : forall (compress : list text -> text) (e : ctx),
+  send_arg compress e =
+    match c_plugs e with
+    | Some [p] => Some (pl_name p)
+    | Some ((p :: _ :: _) as ps) => Some (compress (map pl_name ps))
+    | _ => None
+    end.
+Proof. exact send_arg_spec. Qed.
+
+(* the bytes queued are the format with the argument substituted for %s (%% -> %), nothing else *)
+Theorem C08_send_format : forall fmt a str : text, hsprintf1 fmt (Some a) = Some str -> str = subst_spec fmt a.
+Proof. exact hsprintf1_spec. Qed.
+
+(* a send queues its string exactly once, on the first visit, behind what is already queued, and does not touch
+   unread device input; it finishes when the queue is empty *)
+Theorem C08_send_once : forall (rmatch : text -> text -> option pmatch) (compress : list text -> text) now d a store e rest fmt fin d' a' store' evs,
+  process_send compress now d a store e rest fmt = Ok (fin, d', a', store', evs) ->
+  (c_processing e = false ->
+     exists str, hsprintf1 fmt (send_arg compress e) = Some str /\ sd_to d' = sd_to d ++ str /\ sd_from d' = sd_from d
+       /\ In (EvSent str) evs /\ store' = store /\ fin = match sd_to d ++ str with [] => true | _ => false end)
+  /\ (c_processing e = true ->
+     d' = d /\ evs = [] /\ store' = store /\ fin = match sd_to d with [] => true | _ => false end).
+Proof.
+  intros rmatch compress now d a store e rest fmt fin d' a' store' evs H. split; intros Hp.
+  - exact (process_send_first rmatch compress now d a store e rest fmt fin d' a' store' evs Hp H).
+  - exact (process_send_again rmatch compress now d a store e rest fmt fin d' a' store' evs Hp H).
+Qed.
+
+(* an expect finishes only on a match against the unread device bytes (NUL shown as 0xFF) and then consumes
+   exactly the bytes up to the end of the match; otherwise the buffer is untouched; it never sends *)
+Theorem C08_expect : forall (rmatch : text -> text -> option pmatch) now d a store re fin d' a' store' evs,
+  process_expect rmatch now d a store re = Ok (fin, d', a', store', evs) ->
+  a' = a /\ store' = store /\ sd_to d' = sd_to d /\
+  (fin = true -> exists pm so eo, rmatch re (nul_to_ff (sd_from d)) = Some pm /\ nth_error pm 0 = Some (Some (so, eo)) /\
+       sd_from d' = skipn eo (sd_from d) /\ sd_xm d' = Some (nul_to_ff (sd_from d), pm) /\ sd_xm_used d' = true) /\
+  (fin = false -> sd_from d' = sd_from d).
+Proof. exact process_expect_spec. Qed.
+
+(* a delay lasts at least its stated time, measured from its first visit (unless delays are short-circuited: -Y) *)
+Theorem C08_delay : forall sc now d a store e rest usec fin d' a' store' evs dt,
+  process_delay sc now d a store e rest usec = Ok (fin, d', a', store', evs, dt) ->
+  d' = d /\ store' = store /\
+  (fin = true -> sc = true \/ (if c_processing e then a_delay_start a else now) + usec <= now) /\
+  (c_processing e = false -> a_delay_start a' = now) /\
+  (c_processing e = true -> a_delay_start a' = a_delay_start a).
+Proof. exact process_delay_spec. Qed.
+
+(* the foreach iterator visits the plugs of its list once each, in list order *)
+Theorem C08_foreach_order : forall (l : list plug) (fuel i : nat),
+  (length l - i < fuel)%nat -> (i <= length l)%nat -> enumerate fuel false l i = skipn i l.
+Proof. exact enumerate_all. Qed.
+
+(* setplugstate / setresult: the FIRST matching pattern decides *)
+Theorem C08_first_interpretation : forall (rmatch : text -> text -> option pmatch) interps str dflt,
+  first_interp rmatch interps str dflt =
+    match find (fun cr : Z * text => rtest rmatch (snd cr) str) interps with Some (code, _) => code | None => dflt end.
+Proof. exact first_interp_spec. Qed.
+
+(* ifon / ifoff: the body runs, with the same plug list, exactly when the plug's recorded state is the wanted
+   one; an unknown state fails the action; otherwise the block is skipped; on return the statement is finished *)
+Theorem C08_ifonoff : forall d a store e rest want body,
+  (c_processing e = false ->
+   process_ifonoff d a store e rest want body =
+     (let st := plug_state store a e in
+      let cond := want && (st =? ST_ON) || negb want && (st =? ST_OFF) in
+      let a1 := if negb cond && (st =? ST_UNKNOWN) then set_err ACT_EEXPFAIL a else a in
+      if cond
+      then Ok (true, d, set_exec (new_ctx body (match c_plugs e with Some ps => Some ps | None => Some [] end)
+                                   :: set_processing true e :: rest) a1, store, [])
+      else Ok (true, d, a1, store, [])))
+  /\ (c_processing e = true ->
+      process_ifonoff d a store e rest want body = Ok (true, d, put_top (set_processing false e) rest a, store, [])).
+Proof.
+  intros. split; [apply process_ifonoff_closed | apply process_ifonoff_return].
+Qed.
+
+(* telemetry escaping (dbg_memstr): at most 4 output bytes per byte, only printable ASCII *)
+Theorem C08_memstr : forall t : text, (length (memstr t) <= 4 * length t)%nat /\ Forall (fun c => is_print c = true) (memstr t).
+Proof. intros t. split; [apply memstr_len | apply memstr_printable]. Qed.
+
+(* non-vacuity *)
 Example C08_memstr_example : memstr [13; 10; 9; 65; 0; 200; 255]%N = bslit "\r\n\tA\000\310\377".
 Proof. vm_compute. reflexivity. Qed.
-Print Assumptions C08_memstr_example.
+Example C08_format_example : hsprintf1 (bslit "on %s 100%%") (Some (bslit "p[1-3]")) = Some (bslit "on p[1-3] 100%").
+Proof. vm_compute. reflexivity. Qed.
+Example C08_format_ub_example : hsprintf1 (bslit "on %d") (Some (bslit "p1")) = None /\ hsprintf1 (bslit "%s %s") (Some (bslit "p1")) = None.
+Proof. vm_compute. split; reflexivity. Qed.
+
+Print Assumptions C08_send_argument. Print Assumptions C08_send_format. Print Assumptions C08_send_once.
+Print Assumptions C08_expect. Print Assumptions C08_delay. Print Assumptions C08_foreach_order.
+Print Assumptions C08_first_interpretation. Print Assumptions C08_ifonoff. Print Assumptions C08_memstr.
